@@ -220,7 +220,7 @@ var (
 	symPool   = []string{"a", "b", "foo", "bar-baz", "*x*", "x1", "list", "quote", "let", "setq", "car", "table", "inst",
 		"defun", "lambda", "a-rather-long-symbol-name", "cond", "progn"}
 	// symbols whose names only read back when written between bars
-	oddSymPool = []string{"hello world", "1e5", "a(b", "x;y", "12", "a'b"}
+	oddSymPool = []string{"hello world", "1e5", "a(b", "x;y", "12", "a'b", "1E5", "-2D0", "7L-2", "1/2"}
 	keyPool    = []string{":k", ":a", ":test", ":initial-contents", ":b2"}
 	chrPool    = []string{"a", "A", "z", "0", "-", "é", "λ", "(", ")", "\"", ";", "#", "'", "\\", " ", "\n", "|"}
 	strAlpha   = []rune("abcXY z01-_.;()'\"\\|#\n\tλé")
